@@ -174,11 +174,37 @@ func propVerify(t *rapid.T) {
 			t.Fatalf("Verify(pk=%x, msg=%x, sig=%x) = %v on the second identical call, %v on the first", pk2, msg2, sig, g3, got)
 		}
 	}
+	// the same verdict through the public half of a private key object that is gone
+	if bytes.Equal(pk2, pk) && rapid.IntRange(0, 3).Draw(t, "dropped-private") == 0 {
+		key3, err := publicHalfOfDroppedKey(dPrime)
+		if err != nil {
+			t.Fatalf("NewSchnorrPrivateKey(%x): %v", dPrime, err)
+		}
+		if !bytes.Equal(key3.Bytes(), pk) || key3.Verify(msg2, sig) != want {
+			t.Fatalf("the public key taken from a private key object changed once that object was collected: Bytes() = %x (want %x), Verify = %v (BIP-340 says %v)", key3.Bytes(), pk, key3.Verify(msg2, sig), want)
+		}
+	}
 	// the same verdict through a key built from the point
 	key2, err := bitcoin.NewSchnorrPublicKeyFromPoint(lib.Pt(ref.Pt{X: ref.Int(pk2), Y: liftY(ref.Int(pk2), rapid.Bool().Draw(t, "frompoint-odd"))}))
 	if err != nil || key2.Verify(msg2, sig) != want {
 		t.Fatalf("Verify through NewSchnorrPublicKeyFromPoint disagrees (%v)", err)
 	}
+}
+
+// publicHalfOfDroppedKey returns the public key object handed out by a
+// private key object that nothing references any more, after a garbage
+// collection (with time for finalizers) has run: the public half must be a
+// value of its own, not a view into an object with a shorter life.
+func publicHalfOfDroppedKey(dPrime *big.Int) (*bitcoin.SchnorrPublicKey, error) {
+	pub, err := func() (*bitcoin.SchnorrPublicKey, error) {
+		sk, err := bitcoin.NewSchnorrPrivateKey(ref.B32(dPrime))
+		if err != nil {
+			return nil, err
+		}
+		return sk.PublicKey(), nil
+	}()
+	gen.CollectNow()
+	return pub, err
 }
 
 func liftY(x *big.Int, odd bool) *big.Int {
